@@ -211,6 +211,34 @@ def oracle(ck: Check, tier, deep=False):
                                  f"second application changes the result by {np.abs(S2 - S).max():.3g}")
 
 
+def oracle_transform(ck: Check, tier):
+    """the same rejection / finiteness contract where users meet it: abel.Transform(symmetry_axis=…, use_quadrants=…)"""
+    import abel
+    from harness.methods import quiet
+    rng = np.random.default_rng(seed() + 606)
+    for (r, c) in ((5, 5), (6, 7)) if tier == "quick" else ((5, 5), (6, 7), (9, 5), (8, 11)):
+        for (axname, axis, code), mask in itertools.product(AXES, MASKS):
+            im = rng.normal(size=(r, c)) + 3.0
+            sig = dict(site="Transform", axis_form=axname)
+            rep = dict(shape=[r, c], symmetry_axis=repr(axis), use_quadrants=list(mask), image=im.tolist())
+            ck.count(("S.T", r, c, axname, mask), suite="S.transform-rejection")
+            defined = ref_defined(code, mask)
+            try:
+                t = quiet(abel.Transform, im, method="two_point", symmetry_axis=axis, use_quadrants=mask,
+                          transform_options=dict(basis_dir=None)).transform
+                raised = False
+            except ValueError:
+                raised = True
+            except Exception as e:
+                ck.violation(dict(sig, clause="exception"), rep, f"unexpected {type(e).__name__}: {e}")
+                continue
+            if raised != (not defined):
+                ck.violation(dict(sig, clause="rejection"), rep,
+                             f"abel.Transform: quadrant {'undefined but accepted' if not raised else 'defined but rejected'}")
+            elif not raised and not np.all(np.isfinite(t)):
+                ck.violation(dict(sig, clause="finite"), rep, "abel.Transform: non-finite output for an admissible request")
+
+
 def run(tier):
     ck = Check("C06", tier)
     ck.cov["rule"] = ("K: every shape 2x2..9x9 (thorough: ..13x13 + 40 random up to 40x40) x 5 symmetry_axis forms "
@@ -230,6 +258,7 @@ def run(tier):
         ck.broken.append(dict(kind="proof", module="pyabel_drv", why="driver build failed", log=log[-1500:]))
     else:
         correspondence(ck, tier)
+    oracle_transform(ck, tier)
     oracle(ck, tier, deep=bool(ck.broken) or tier == "thorough")
     return ck.finish()
 
